@@ -6,11 +6,18 @@ Property theorems only; helper lemmas are in `Lemmas/Names.lean`, the model of t
 rule a reader has to agree with in `Spec/Names.lean` (`Spec.split`, `Spec.vonLast`,
 `Spec.tokenCase`/`Spec.isLow`, and the two hypotheses-vocabulary definitions `Spec.caseTokens`
 — the tokens whose case the rule examines — and `Spec.caseKnown` — the token scans within the
-brace-nesting limit, or starts with an ASCII capital).  Tokenisation and comma splitting are
-the C12 primitives `splitTex .space` / `splitTex .comma`.
+brace-nesting limit, or starts with an upper-case character).  Tokenisation and comma splitting
+are the C12 primitives `splitTex .space` / `splitTex .comma`.
+
+Character classes: "letter", "upper case", "lower case" are `isAlphaN` / `isUpperN` / `isLowerN`
+(`Model/Names.lean`): Python's `str.isalpha` / `isupper` / `islower` on one character, as
+code-point ranges regenerated from the running interpreter (`Gen/Unicode.lean`).  Model and
+rule use the same classes; `C04_char_classes` records what the rule relies on about them.
 
 The concrete names used by the `_nonvacuous` / `_neg` witnesses (`nameVP`, `nameVB`,
-`tokDeepLower`, `nameDeepLower`, `nameDeep`) are defined at the end of `Lemmas/Names.lean`.
+`tokDeepLower`, `nameDeepLower`, `nameDeep`, and the non-ASCII `nameMao`, `nameBenGurion`,
+`nameBeneden`, `nameAkahi`, `nameCircled`, `nameMixed`) are defined at the end of
+`Lemmas/Names.lean`.
 
 `parseName` is `_parse_string` on the stripped argument (`mkPerson` strips and calls it only
 for a non-empty result, as `Person.__init__` does).
@@ -20,11 +27,54 @@ import PybtexModel.Lemmas.Names
 namespace Pybtex.Props
 open Pybtex Spec Names
 
+/-! ### 0. the character classes -/
+
+/-- What the rule relies on about the interpreter's character tables (each part is, or follows
+from, a kernel-evaluated check of the regenerated tables):
+no character is both upper and lower case; below U+0080 the classes are the ASCII ones; white
+space, braces, backslash, comma, tie, hyphen and digits are in none of the classes; a first
+character that is a letter or cased is an ordinary brace-level-0 character (the first token of
+the scan); and the first-character clause of `Spec.tokenCase` changes nothing unless the token
+starts with a cased character that is not a letter — otherwise the token's case is the one of
+its first brace-level-0 letter or special character. -/
+theorem C04_char_classes :
+    (∀ c, isUpperN c = true → isLowerN c = false) ∧
+    (∀ c : Char, c.toNat < 128 →
+      isAlphaN c = isAlpha c ∧ isUpperN c = isUpperA c ∧ isLowerN c = isLowerA c) ∧
+    (∀ c, (isWs c = true ∨ isDigit c = true ∨ c ∈ ['{', '}', '\\', ',', '~', '-']) →
+      isAlphaN c = false ∧ isUpperN c = false ∧ isLowerN c = false) ∧
+    (∀ c r, (isAlphaN c = true ∨ isUpperN c = true ∨ isLowerN c = true) →
+      scan (c :: r) = (scan r).map (([c], 0) :: ·)) ∧
+    (∀ tok, (∀ c r, tok = c :: r → (isUpperN c = true ∨ isLowerN c = true) → isAlphaN c = true) →
+      Spec.tokenCase tok = (scan tok).map Spec.tokCaseOf) := by
+  refine ⟨fun _ => upper_lower_disjoint, fun _ => ascii_classes, ?_, fun _ r h => scan_cons_classed r h,
+    tokenCase_eq_scan⟩
+  intro c h
+  rcases h with h | h | h
+  · exact ws_no_class h
+  · exact digit_no_class h
+  · apply structural_no_class
+    simp only [List.mem_cons, List.not_mem_nil, or_false] at h
+    rcases h with rfl | rfl | rfl | rfl | rfl | rfl <;> decide
+
+/-- The classes are independent beyond ASCII: letters without case (CJK, Hebrew, Hangul, the
+ʻokina, titlecase ǅ), cased letters outside ASCII (É é Ж ж Ω ω), cased characters that are not
+letters (Ⓐ ⓐ), a combining mark (U+0301) in no class. -/
+theorem C04_char_classes_nonvacuous :
+    (∀ c ∈ "毛בן김ʻǅ".toList, isAlphaN c = true ∧ isUpperN c = false ∧ isLowerN c = false) ∧
+    (∀ c ∈ "ÉЖΩ".toList, isAlphaN c = true ∧ isUpperN c = true ∧ isLowerN c = false) ∧
+    (∀ c ∈ "éжω".toList, isAlphaN c = true ∧ isUpperN c = false ∧ isLowerN c = true) ∧
+    (isAlphaN 'Ⓐ' = false ∧ isUpperN 'Ⓐ' = true) ∧ (isAlphaN 'ⓐ' = false ∧ isLowerN 'ⓐ' = true) ∧
+    (isAlphaN (Char.ofNat 0x301) = false ∧ isUpperN (Char.ofNat 0x301) = false ∧
+      isLowerN (Char.ofNat 0x301) = false) ∧
+    Spec.tokenCase "ⓐB".toList = some .lower ∧ (scan "ⓐB".toList).map Spec.tokCaseOf = some .upper := by
+  decide +kernel
+
 /-! ### 1. the model is the BibTeX rule -/
 
 /-- `_parse_string` computes exactly the BibTeX split, for every non-empty string all of
 whose case-deciding tokens have a decidable case (they scan within the nesting limit or start
-with a capital; `is_von_name` does not even look further in the latter case). -/
+with an upper-case character; `is_von_name` does not even look further in the latter case). -/
 theorem C04_matches_spec (name : Str) (hne : name ≠ [])
     (hk : ∀ t ∈ Spec.caseTokens name, Spec.caseKnown t = true) :
     parseName name = .ok (Spec.split name) := by
@@ -45,6 +95,28 @@ theorem C04_matches_spec_nonvacuous :
     parseName nameVB = .ok
       ({ first := ["Ludwig".toList], middle := [], prelast := ["von".toList],
          last := ["Beethoven".toList], lineage := ["Jr".toList] }, false) := by
+  decide +kernel
+
+/-- Names with letters outside ASCII: letters without case (CJK, Hebrew, the ʻokina) never make
+a von part; non-ASCII capitals / small letters (É, Ж, ван, ω) behave like ASCII ones; a cased
+character that is not a letter (Ⓐ, ⓐ) decides the case as first character only; the titlecase
+letter ǅ is a letter without case. -/
+theorem C04_matches_spec_nonvacuous_unicode :
+    (∀ n ∈ [nameMao, nameBenGurion, nameBeneden, nameAkahi, nameCircled, nameMixed],
+      n ≠ [] ∧ ∀ t ∈ Spec.caseTokens n, Spec.caseKnown t = true) ∧
+    parseName nameMao = .ok ({ first := ["毛".toList], last := ["泽东".toList] }, false) ∧
+    parseName nameBenGurion = .ok
+      ({ first := ["\u05d3\u05d5\u05d3".toList], middle := ["\u05d1\u05df".toList],
+         last := ["\u05d2\u05d5\u05e8\u05d9\u05d5\u05df".toList] }, false) ∧
+    parseName nameBeneden = .ok
+      ({ first := ["Édouard".toList], prelast := ["van".toList], last := ["Beneden".toList] }, false) ∧
+    parseName nameAkahi = .ok
+      ({ first := ["Leilani".toList], last := ["ʻAkahi".toList, "Kealoha".toList] }, false) ∧
+    parseName nameCircled = .ok
+      ({ first := ["Ⓐb".toList], prelast := ["ⓐb".toList], last := ["1ⓐX".toList, "Z".toList] }, false) ∧
+    parseName nameMixed = .ok
+      ({ first := ["Жан".toList], prelast := ["ван".toList, "ωmega".toList],
+         last := ["ǅx".toList, "Ωmega".toList] }, false) := by
   decide +kernel
 
 /-- The same with the plain hypothesis "every case-deciding token scans". -/
@@ -73,12 +145,13 @@ theorem C04_matches_spec_neg :
     parseName nameDeepLower = .ok ({ prelast := [tokDeepLower], last := [['B']] }, false) ∧
     Spec.split nameDeepLower = ({ first := [tokDeepLower], last := [['B']] }, false) ∧
     (∀ t ∈ Spec.caseTokens nameDeepLower,
-      (match t with | c :: _ => isAlpha c | [] => false) = true ∨ (scan t).isSome = true) := by
+      (match t with | c :: _ => isAlphaN c && isLowerN c | [] => false) = true ∨
+        (scan t).isSome = true) := by
   decide +kernel
 
 /-- Case of one token: for a non-empty token whose case is decidable `is_von_name` is the
-rule's "the token is lower-case" (first brace-level-0 letter, or first letter after the
-control sequence of a special character that comes first). -/
+rule's "the token is lower-case" (a cased first character; else the first brace-level-0 letter,
+or the first letter after the control sequence of a special character that comes first). -/
 theorem C04_case_of_token (t : Str) (hne : t ≠ []) (hk : Spec.caseKnown t = true) :
     isVonName t = .ok (Spec.isLow t) :=
   isVonName_eq_isLow hne hk
@@ -87,6 +160,16 @@ theorem C04_case_of_token_nonvacuous :
     let t := "{\\'e}cole".toList
     t ≠ [] ∧ Spec.caseKnown t = true ∧ Spec.isLow t = true ∧
     Spec.isLow "{\\'E}cole".toList = false ∧ Spec.isLow "{\\relax von}".toList = true := by
+  decide +kernel
+
+/-- tokens with non-ASCII characters: lower-case é / ж / ω first; a letter without case decides
+"not lower-case" (毛x, ʻakahi, ǅx) even when small letters follow, also after a non-letter
+(`(毛x`); special characters with non-ASCII letters; ⓐ counts in first position only. -/
+theorem C04_case_of_token_nonvacuous_unicode :
+    (∀ t ∈ ["école", "жан", "ωmega", "ⓐB", "{\\'é}cole", "{\\relax ж}", "1é", "\u0301x"].map String.toList,
+      t ≠ [] ∧ Spec.caseKnown t = true ∧ Spec.isLow t = true) ∧
+    (∀ t ∈ ["École", "毛x", "ʻakahi", "ǅx", "(毛x", "1ⓐX", "Ⓐb", "{\\'É}cole", "{\\relax 毛}x", "김"].map String.toList,
+      t ≠ [] ∧ Spec.caseKnown t = true ∧ Spec.isLow t = false) := by
   decide +kernel
 
 /-! ### 2. totality -/
